@@ -1,4 +1,9 @@
+#[cfg(not(goml_verif))]
 use std::{collections::HashMap, path::Path};
+#[cfg(goml_verif)]
+use std::path::Path;
+#[cfg(goml_verif)]
+use crate::verif_hash::HashMap;
 
 use cst::cst::CstNode;
 use cst::nodes::BinaryExpr;
